@@ -1040,11 +1040,12 @@ theorem fi_step_worker (s s' : LS) (e : Ev) (hI : Inv s) (h : FI s) (ht : s.tame
         · cases hs
           exact fi_wpc s h f _ rfl rfl rfl rfl (by intro t h1; rw [hl] at h1; cases h1) (by intro t h1; cases h1)
             (by rw [hg.2]; intro h1; rcases h1 with h1 | h1 <;> cases h1)
-        · rename_i t hhd
+        · rename_i t hhd0
+          have hhd := (lookupTarget_some hhd0).1
           cases hs
           have htn : t < s.n := hB.ch ot t (List.mem_of_mem_head? hhd)
           have htf : ¬ isFl s t := by
-            simp only [LS.tame, hot, hhd] at ht
+            simp only [LS.tame, hot, hhd0] at ht
             unfold isFl
             intro h1
             cases hq : (s.req t).oldtag with
